@@ -16,7 +16,7 @@ Inductive obs :=
 | OOpen.           (* still open when the scenario was torn down *)
 
 Inductive case :=
-| CScen (wait : N) (srvs : list server)
+| CScen (wait : N) (started : list (addr * server))   (* in start order, with the configured listen addresses *)
         (impl_T : option N)                  (* duration of proxy.Shutdown; None = not back within the hang cap *)
         (probe_at : N)
         (accepted_begin accepted_return : list bool)  (* per server: a connect after begin / after return succeeded *)
@@ -77,14 +77,20 @@ Definition spec_impl (wait : N) (srvs : list server) (impl_T : option N)
    by C18_bounded the model satisfies the bound for every input *)
 Definition check_case (c : case) : N :=
   match c with
-  | CScen wait srvs impl_T probe_at acc1 acc2 impl lo hi =>
-      let g := shutdown wait srvs in
+  | CScen wait started impl_T probe_at acc1 acc2 impl lo hi =>
+      let srvs := map snd started in
+      let rs := run_started grpc_prog key_configured wait started in
       let same :=
-        ret_matches lo hi (g_ret g) impl_T
-        && all2 (fun r a => Bool.eqb (server_accepts r probe_at) a) (g_servers g) acc1
-        && all2 (fun r a => Bool.eqb (server_accepts r probe_at) a) (g_servers g) acc2
-        && all2 (fun r os => all2 (fun lr o => all2 (fate_matches lo hi) (r_fates lr ++ r_stuck lr) o) (s_leaves r) os)
-                (g_servers g) impl in
+        ret_matches lo hi (started_ret rs) impl_T
+        && all2 (fun r a => Bool.eqb (started_accepts r probe_at) a) rs acc1
+        && all2 (fun r a => Bool.eqb (started_accepts r probe_at) a) rs acc2
+        && all2 (fun p os =>
+                   match fst p with
+                   | Some r => all2 (fun lr o => all2 (fate_matches lo hi) (r_fates lr ++ r_stuck lr) o) (s_leaves r) os
+                   | None => (* not reached by Shutdown: nothing closed, nothing cut *)
+                       all2 (fun l o => all2 (fate_matches lo hi) (map untouched (litems l) ++ map Cut (lstuck l)) o)
+                            (leaves (snd p)) os
+                   end) (combine rs srvs) impl in
       let spec := spec_impl wait srvs impl_T acc1 acc2 impl in
       let region : option N := None in
       let nontriv := existsb (fun s => existsb (fun l => negb (match litems l ++ lstuck l with [] => true | _ => false end)) (leaves s)) srvs in
